@@ -674,7 +674,7 @@ class Executor:
                     continue
                 bb = s2.store[b.ref]
                 extra = z3.IntVal(len(bb.items)) if isinstance(bb, ListBox) else bb.length
-                n0 = V.seq_len(V.get_rid(a.t))
+                n0 = V.seq_len(s2.sid(V.get_rid(a.t)))
                 s2.assume(n0 >= 0)
                 nb = AbsBox("list", (n0 + extra) if extra is not None else None, None)
                 if isinstance(bb, ListBox):
@@ -853,7 +853,7 @@ class Executor:
                         out.append((s3, y))
                         continue
                     r = z3.If(V.is_Str(c), z3.Contains(V.get_s(c), V.get_s(i)),
-                              z3.If(V.kind_of(V.get_rid(c)) == V.K_DICT, V.map_has(V.get_rid(c), i),
+                              z3.If(V.kind_of(V.get_rid(c)) == V.K_DICT, V.map_has(s3.sid(V.get_rid(c)), i),
                                     V.fresh("in", V.B)))
                     out.append((s3, r))
             return out
@@ -1287,12 +1287,13 @@ class Executor:
         rid = V.get_rid(t)
         is_seq = z3.And(V.is_Ref(t), z3.Or(V.kind_of(rid) == V.K_LIST, V.kind_of(rid) == V.K_TUPLE))
         is_map = z3.And(V.is_Ref(t), V.kind_of(rid) == V.K_DICT)
-        n = V.seq_len(rid)
+        cid = s.sid(rid)
+        n = V.seq_len(cid)
         ii = V.to_int(i)
         sn = z3.Length(V.get_s(t))
-        val = z3.If(is_map, V.map_get(rid, i),
+        val = z3.If(is_map, V.map_get(cid, i),
                     z3.If(V.is_Str(t), V.VStr(z3.SubString(V.get_s(t), self.norm_index(ii, sn), 1)),
-                          V.seq_item(rid, self.norm_index(ii, n))))
+                          V.seq_item(cid, self.norm_index(ii, n))))
         if self.pure:
             return [(s, Z(val))]
         s.assume(n >= 0)
@@ -1307,7 +1308,7 @@ class Executor:
                 if y is not None:
                     out.append((s3, y))
                     continue
-                for (s4, z) in self.need(s3, z3.Implies(is_map, V.map_has(rid, i)), "KeyError", node, "key present in the dict"):
+                for (s4, z) in self.need(s3, z3.Implies(is_map, V.map_has(cid, i)), "KeyError", node, "key present in the dict"):
                     if z is not None:
                         out.append((s4, z))
                         continue
@@ -1794,6 +1795,8 @@ class Executor:
         first = states[0]
         for s in states[1:]:
             if s.nref != first.nref or len(s.out) != len(first.out) or set(s.env) != set(first.env) or set(s.store) != set(first.store):
+                return outcomes
+            if not s.same_heap(first):
                 return outcomes
             if s.pc[:base_len] is None:
                 return outcomes
